@@ -152,16 +152,14 @@ def lean_sources():
             yield from sorted(d.rglob("*.tmpl"))
 
 
-def lean_obligations(prop: str, extra_modules=(), thorough=False, pre=None) -> dict:
+def _lean_obligations_locked(prop: str, extra_modules=(), thorough=False, pre=None) -> dict:
     """Regenerate model instances, build, grep for forbidden constructs and audit axioms.
 
     Returns dict(ok, obligations=[names], discharged=[names], problems=[str], checker_cmd).
     """
     res = {"ok": False, "obligations": [], "discharged": [], "problems": [], "axioms": {},
            "checker_cmd": "cd lean && python3 gen_instances.py --check && lake build Properties.%s Witness.%s driver && lake env lean .audit/%s.lean  (#print axioms on every theorem of Properties/%s.lean%s)" % (prop, prop, prop, prop, "; lake env leanchecker" if thorough else "")}
-    lock = open(LEAN / ".lock", "w")
-    fcntl.flock(lock, fcntl.LOCK_EX)
-    try:
+    if True:
         if pre is not None:
             # S2: regenerate Lean definitions from /repo's current source (translator), under the build lock
             try:
@@ -186,9 +184,6 @@ def lean_obligations(prop: str, extra_modules=(), thorough=False, pre=None) -> d
             errs = [l for l in (p.stdout + p.stderr).splitlines() if "error" in l.lower()]
             res["problems"].append("lake build failed: " + " | ".join(errs[:8]))
             return res
-    finally:
-        fcntl.flock(lock, fcntl.LOCK_UN)
-        lock.close()
     # forbidden constructs anywhere in the Lean sources (comments stripped)
     for src in lean_sources():
         m = FORBIDDEN.search(strip_comments(src.read_text()))
@@ -231,6 +226,19 @@ def lean_obligations(prop: str, extra_modules=(), thorough=False, pre=None) -> d
             res["problems"].append("leanchecker failed: " + (p.stdout + p.stderr)[-400:])
     res["ok"] = not res["problems"] and len(res["discharged"]) == len(names) and len(names) > 0
     return res
+
+
+def lean_obligations(prop: str, extra_modules=(), thorough=False, pre=None) -> dict:
+    """Regenerate model instances and translated definitions, build, grep for forbidden constructs, audit axioms - all under one
+    lock on the Lean project, so that checks running concurrently (possibly against different source trees, whose translated
+    definitions differ) never see each other's half-built object files."""
+    lock = open(LEAN / ".lock", "w")
+    fcntl.flock(lock, fcntl.LOCK_EX)
+    try:
+        return _lean_obligations_locked(prop, extra_modules=extra_modules, thorough=thorough, pre=pre)
+    finally:
+        fcntl.flock(lock, fcntl.LOCK_UN)
+        lock.close()
 
 
 def s2_trace_core():
